@@ -39,6 +39,8 @@ def cbSpec : P CbSpec := do
 
 def oarg : P OArg := opt (list nats)
 
+def selP : P Sel := do let name ← nat; let str ← bool; pure { name, str }
+
 def opP : P Op := do
   let k ← nat
   match k with
@@ -48,7 +50,7 @@ def opP : P Op := do
     let ev ← nat; let sts ← opt nats; let loop ← bool; let incl ← bool
     let c ← oarg; let u ← oarg; let bf ← oarg; let af ← oarg; let pr ← oarg
     pure (.addOrdered ev sts loop incl c u bf af pr)
-  | 3 => do let ev ← nat; let s ← opt nats; let d ← opt nats; pure (.remove ev s d)
+  | 3 => do let ev ← nat; let s ← opt (list selP); let d ← opt (list selP); pure (.remove ev s d)
   | _ => Op.setInitial <$> nat
 
 def optsP : P Opts := do
